@@ -20,6 +20,8 @@ mod ast;
 mod builtins;
 mod eval;
 mod lexer;
+#[cfg(seed_verif)]
+mod verif;
 
 use lalrpop_util::ParseError;
 use snafu::ResultExt;
@@ -50,6 +52,11 @@ lalrpop_mod!(
 );
 
 fn main() {
+    #[cfg(seed_verif)]
+    if verif::dispatch() {
+        return;
+    }
+
     let mut args = std::env::args();
     let prog =
         match args.next() {
